@@ -1,6 +1,7 @@
 package props
 
 import (
+	"unicode/utf8"
 	"bytes"
 	"encoding/json"
 	"fmt"
@@ -417,6 +418,23 @@ func TestC17(t *testing.T) {
 		return nil
 	})
 	rec.Replayer("render", replayDiff(false))
+	rec.Replayer("string-length", func(raw json.RawMessage) error {
+		var src string
+		if err := json.Unmarshal(raw, &src); err != nil {
+			return err
+		}
+		o := run.InProc(src, nil, nil, run.Opts{Budget: implBudget})
+		// the program prints [s] ... and then s itself on the last line: every quoted copy equals it
+		lines := strings.Split(strings.TrimSuffix(string(o.Stdout), "\n"), "\n")
+		if o.Class != "ok" || len(lines) != 2 {
+			return fmt.Errorf("outcome %s (%s), %d lines", o.Class, o.Msg, len(lines))
+		}
+		q := "\"" + lines[1] + "\""
+		if want := fmt.Sprintf("[%s] {%s: 1} [[%s, %s]] {\"k\": {%s: %s}}", q, q, q, q, q, q); lines[0] != want {
+			return fmt.Errorf("a nested string / key of %d bytes is not quoted in full (first difference at byte %d)", len(lines[1]), firstDiff(lines[0], want))
+		}
+		return nil
+	})
 	rec.Replayer("reread", func(raw json.RawMessage) error {
 		var c C17Doc
 		if err := json.Unmarshal(raw, &c); err != nil {
@@ -432,6 +450,35 @@ func TestC17(t *testing.T) {
 	}
 	excl.ArrayAlias = rec.KnownActive("KF-array-alias", false)
 	rec.ReplayTier()
+
+	// nested strings and keys of every length from 0 to 130 bytes and around the powers of two
+	// (ASCII and multi-byte): quoted in full, byte for byte (direct oracle: the text)
+	if sh, _ := ev.Shard(); sh == 0 {
+		lengths := []int{255, 256, 257, 1023, 1024, 1025, 4095, 4096, 4097, 65535, 65536, 65537}
+		for l := 0; l <= 130; l++ {
+			lengths = append(lengths, l)
+		}
+		for _, unit := range []string{"abcdefghijklmnopqrstuvwxyz0123456789", "é日a"} {
+			for _, l := range lengths {
+				str := strings.Repeat(unit, l/len(unit)+1)[:l]
+				for !utf8.ValidString(str) {
+					str = str[:len(str)-1] // (cut on a character boundary)
+				}
+				src := "BEGIN { s = \"" + str + "\"\nprint [s], {\"" + str + "\": 1}, [[s, s]], {k: {\"" + str + "\": s}}\nprint s }"
+				want := fmt.Sprintf("[%q] {%q: 1} [[%q, %q]] {\"k\": {%q: %q}}\n%s\n", str, str, str, str, str, str, str)
+				if unit != "abcdefghijklmnopqrstuvwxyz0123456789" {
+					q := "\"" + str + "\""
+					want = fmt.Sprintf("[%s] {%s: 1} [[%s, %s]] {\"k\": {%s: %s}}\n%s\n", q, q, q, q, q, q, str)
+				}
+				o := run.InProc(src, nil, nil, run.Opts{Budget: implBudget})
+				rec.Case(fmt.Sprintf("string-length %d %q", l, unit), l >= 15, "nested-string-of-every-length")
+				if o.Class != "ok" || string(o.Stdout) != want {
+					got := string(o.Stdout)
+					rec.Violation("string-length", src, clip(src), fmt.Sprintf("a nested string / key of %d bytes: outcome %s (%s), first difference at byte %d of the output (got %d bytes, want %d)", len(str), o.Class, o.Msg, firstDiff(got, want), len(got), len(want)))
+				}
+			}
+		}
+	}
 
 	// values nested deeper than any document can be (the decoder stops at 10000), built by the
 	// program: printed in full (direct oracle: the text)
@@ -511,7 +558,12 @@ func TestC17(t *testing.T) {
 			root.Items = append(root.Items, el)
 		}
 		store := func() *ast.Node {
-			switch rapid.IntRange(0, 5).Draw(rt, "store") {
+			switch rapid.IntRange(0, 7).Draw(rt, "store") {
+			case 6:
+				// a cycle that passes through $ itself
+				return ast.ExprS(ast.Set(ast.Mem(ast.Dollar(), "me"), ast.Dollar()))
+			case 7:
+				return ast.ExprS(ast.Set(ast.Mem(ast.Mem(ast.Dollar(), "kid"), "up"), ast.Dollar()))
 			case 0:
 				return ast.ExprS(ast.Set(ast.Mem(ast.Dollar(), "n"), ast.Str("changed")))
 			case 1:
